@@ -395,6 +395,7 @@ def run(tier):
     t = time.time()
     flagged, inst = star_ambiguity(ck, model, n_amb, q)
     ck.add_queries("z3", q.n, q.secs)
+    q.report(ck, "star-ambiguity")
     ck.states += inst
     ck.sub("star ambiguity (two ways to consume one span)", "E-RX", "holds" if not flagged else "flagged",
            repeat_instances=inst, queries=q.n, solver_s=round(q.secs, 2), wall_s=round(time.time() - t, 1), bound=f"|w|<={n_amb}",
